@@ -25,14 +25,14 @@ NOT_APPLICABLE = {
 }
 
 LEVEL_TEXT = {
-    "C05": "Bounded model checking of the real code (Kani -> CBMC -> CaDiCaL). Literal carriers and ranges: every i128 value x 8 types, every binary64/binary32 bit pattern for the narrowing rule. Host operations through the real dispatch BuiltinRuntime::invoke: integer add/sub and all integer and float comparisons on every operand pair at every width (incl. NaN, infinities, signed zero); integer mul/div/mod on every pair at 8 bits (16 bits in the thorough tier) and on sparse operands (small magnitudes of either sign, next to MIN/MAX, powers of two - incl. MIN / -1) at wider types, division by zero shown to be the one trap; float add/sub/mul on every binary32 pair, add/sub on every binary64 pair, add/sub/mul on sparse binary32 operands around overflow/underflow/NaN; literal text -> value through the Integer and Float grammar actions copied from parser.lalrpop at run time (<= 6/8 symbolic digits; concrete float texts incl. every spelling of negative zero). Right level: the property is about rare boundary values that sampling misses and the code is loop-free integer/float code the solver decides in seconds to minutes.",
+    "C05": "Bounded model checking of the real code (Kani -> CBMC -> CaDiCaL). Literal carriers and ranges: every i128 value x 8 types, every binary64/binary32 bit pattern for the narrowing rule. Host operations through the real dispatch BuiltinRuntime::invoke: integer add/sub and all integer and float comparisons on every operand pair at every width (incl. NaN, infinities, signed zero); integer mul/div/mod on every pair at 8 bits (16 bits in the thorough tier) and on sparse operands (small magnitudes of either sign, next to MIN/MAX, powers of two - incl. MIN / -1) at wider types, division by zero shown to be the one trap; float add/sub/mul on every binary32 pair, add/sub on every binary64 pair, add/sub/mul on sparse binary32 operands around overflow/underflow/NaN; the defaulting rule for unannotated literals (every i128 value -> Int64 or IntegerLiteralOutOfRange at Int64; every non-NaN binary64 pattern -> Float64 with unchanged bits) on the literal match block copied from statics/src/query.rs at run time; literal text -> value through the Integer and Float grammar actions copied from parser.lalrpop at run time (<= 6/8 symbolic digits; concrete float texts incl. every spelling of negative zero). Right level: the property is about rare boundary values that sampling misses and the code is loop-free integer/float code the solver decides in seconds to minutes.",
     "C06": "Bounded model checking of the real role tables, ABI classifiers and host entry points: for every one of the 126 roles (solver-chosen constant call sites) the declared arity, the ABI classifier built by for_role and the materialised primitive agree and numeric roles have their declared family; scalar-indexed text operations (Utf8String and str_get through invoke) on every well-formed 3-byte text in every scalar layout and every index; code-point conversion on every i64 / every char; integer parsing, UTF-8 decoding and string equality on symbolic buffers of fixed length; standard handles and exit. Each operation is called through BuiltinRuntime::invoke with exactly its declared arguments and must continue with the declared continuation applied to the declared payload.",
     "C10": "Bounded model checking of the front end's leaf computations on user bytes for every input up to the stated bounds: Integer / metadata-integer / Char / String grammar actions (copied from parser.lalrpop at run time), offset -> line/column translation on every line table satisfying the representation invariant and the constructor that establishes it, compact position packing on all positions, span attachment, format/monadic/literal/intrinsic/builtin directive decoding on all integer arguments, and the streaming lexer: they terminate without panic and every location they compute lies inside the file. A kernel claim: the LR automaton and the later passes are outside (level_note).",
     "C11": "Bounded model checking of the real stream logic of both lexers as an inductive step: from an arbitrary state (any comment depth, any continuation of the raw token stream) one call of Lexer::next returns exactly the first token outside comments per a reference scan, reads nothing beyond it and re-establishes the state invariant - so by induction the delivered stream equals the tokens outside comments for sources of any length (bound: one call skips at most 6/8 raw tokens). Same construction for the tooling lexer LexicalTokens. The logos DFA is replaced by an arbitrary raw-token source whose contract (never Err, contiguous non-empty tokens) is checked on the real DFA for all 1-byte (quick) and 2-byte (thorough) sources.",
 }
 
 LEVEL_NOTE = {
-    "C05": "Trusted: rustc MIR -> Kani 0.68 -> CBMC 6.11 -> CaDiCaL, Kani's alloc/intrinsic models, dev-profile semantics. Scratch-copy rewrite: the by-value argument vectors of the host entry points are retyped ManuallyDrop (drop elision only). Stubs: RandomState::new (fixed keys), impls::random_int (excluded), SemValue::clone (derived clone restricted to thunks + checked panic otherwise), thunk environments are all-zero values no code may dereference. Kani's NaN-generation checks are not verdicts. NOT decided: integer/float to_string, decimal text -> f64 on symbolic digits (fmt, dec2flt, Grisu), full-width 32/64-bit integer mul/div/mod on non-sparse operand pairs, float division and binary64 multiplication on all bit patterns (do not finish in 60 min), the checker-level defaulting rule (Int64/Float64) and 'no implicit conversions', the end-to-end literal -> printed value path.",
+    "C05": "Trusted: rustc MIR -> Kani 0.68 -> CBMC 6.11 -> CaDiCaL, Kani's alloc/intrinsic models, dev-profile semantics. Scratch-copy rewrite: the by-value argument vectors of the host entry points are retyped ManuallyDrop (drop elision only). Stubs: RandomState::new (fixed keys), impls::random_int (excluded), SemValue::clone (derived clone restricted to thunks + checked panic otherwise), thunk environments are all-zero values no code may dereference. Kani's NaN-generation checks are not verdicts. NOT decided: integer/float to_string, decimal text -> f64 on symbolic digits (fmt, dec2flt, Grisu), full-width 32/64-bit integer mul/div/mod on non-sparse operand pairs, float division and binary64 multiplication on all bit patterns (do not finish in 60 min), 'no implicit conversions' in checking position (Tm::Lit Ana arm of check/mod.rs reads the type arena), the salsa plumbing around the defaulting rule (the rule itself - Int64/Float64 when nothing selects a type, with its range check - is decided on the literal match block copied out of literal_syn_judgment at run time, with the intrinsic-singleton lookup replaced by the identity), the end-to-end literal -> printed value path.",
     "C06": "Trusted base, rewrite and stubs as C05. Assumes operations are called at their declared classifier. NOT encoded: operations whose result allocates content-dependent sizes (str_append, str_split_at, str_split_once, char_to_str, Utf8String::split_at_scalar, *_to_string, write_int, write_line), the two string-length wrappers through invoke (decided at the Utf8String level), I/O roles beyond the constant-shape checks, Fs* roles and the closed-handle table (std HashMap over File FFI), RandomInt, real I/O failures, the signature validator (StaticsArena), agreement with lib/std/builtin*.zy and stackir/builtin.rs.",
     "C10": "Trusted base as C05. Assumes token texts match the lexer regex of their token and span ends are <= text length. String-literal decoding and FileInfo::new are exercised on concrete shapes / texts of <= 1 byte only (heap growth under symbolic conditions is beyond CBMC here). NOT encoded: the LR automaton, desugarer, resolver, type checker, ariadne rendering and Display of tokens (most expect sites), float literal text, inputs beyond the per-harness byte bounds.",
     "C11": "Trusted base as C05 plus the logos contract of the stub and LALRPOP's driver consuming the iterator to None and rejecting tokens without a terminal. An unterminated `/-` comments out the rest of the file (allowed by the statement). Comment depth <= 2^32. Token boundaries chosen by the DFA on sources longer than 2 bytes are not encoded.",
